@@ -286,6 +286,10 @@ func hostport(s string) (host, port string) {
 		return "", ""
 	}
 	n := strings.LastIndexByte(s, ':')
+	if n < 0 {
+		// no port, e.g. a target url without one
+		return s, ""
+	}
 	return s[:n], s[n+1:]
 }
 
